@@ -170,9 +170,12 @@ impl Family for C05Thr {
       ("unsub_twice", Json::Bool(rng.below(4) == 0)),
       ("cb_probes", Json::Int(rng.below(3) as i64)),
       ("use_using", Json::Bool(rng.below(6) == 0)),
+      // sources: Observable::create on its own thread, or a Subject pushed from a producer thread
+      ("subject_sources", Json::Bool(rng.below(3) == 0)),
     ])
   }
   fn exec(&self, w: &Json, cfg: RunCfg) -> RunOut {
+    let subject_sources = w.b("subject_sources");
     let mut scripts = Vec::new();
     for s in w.a("inputs") {
       match script_from_json(&s) {
@@ -218,7 +221,16 @@ impl Family for C05Thr {
     let res = rt::run(cfg, move || {
       let handles = Arc::new(Mutex::new(Vec::new()));
       let names: [&'static str; 3] = ["source0", "source1", "source2"];
-      let inputs: Vec<Observable<'static, Val>> = sc2.iter().enumerate().map(|(i, s)| threaded_source(names[i], s.clone(), logs2[i].clone(), check, vec![], handles.clone())).collect();
+      let mut subjects_: Vec<subjects::Subject<'static, Val>> = Vec::new();
+      let inputs: Vec<Observable<'static, Val>> = if subject_sources {
+        sc2.iter().map(|_| {
+          let sb = subjects::Subject::<Val>::new();
+          subjects_.push(sb.clone());
+          sb.observable()
+        }).collect()
+      } else {
+        sc2.iter().enumerate().map(|(i, s)| threaded_source(names[i], s.clone(), logs2[i].clone(), check, vec![], handles.clone())).collect()
+      };
       let mut o = if inputs.len() == 1 { inputs[0].clone() } else { inputs[0].merge(&inputs[1..]) };
       for op in &ops2 {
         o = match op.as_str() {
@@ -237,6 +249,23 @@ impl Family for C05Thr {
         };
       }
       let sub = rec2.subscribe(&o);
+      // producer threads of subject sources start once the subscriber is attached
+      for (i, sb) in subjects_.iter().enumerate() {
+        let (sb, script, log) = (sb.clone(), sc2[i].clone(), logs2[i].clone());
+        handles.lock().unwrap().push(rt::spawn_harness(names[i], move || {
+          for st in &script {
+            let seq_start = rt::seq();
+            let t_start = rt::now_ns();
+            match st {
+              Step::N(x) => sb.next(Val::Int(*x)),
+              Step::E(e) => sb.error(mk_err(*e)),
+              Step::C => sb.complete(),
+            }
+            let seq_end = rt::seq();
+            log.lock().unwrap().emits.push(Emit { sub: 0, step: st.clone(), seq_start, seq_end, sub_before: true, sub_after: true, task: rt::task_id().unwrap_or(0), t: rt::now_ns(), t_start });
+          }
+        }));
+      }
       let do_unsub = {
         let (us, sm) = (us.clone(), sm.clone());
         move |sub: Subscription<'static>| {
